@@ -85,7 +85,7 @@ def run(chk, ctx):
         chk.require(shapes == {(True, "Ok"), (False, "Err")}, "GUARD", "GUARD:build_output_indices:missing-read-output-is-error", "Err iff some read output is not among the found outputs", "build_output_indices: (missing.is_empty(), result) = %s" % sorted(shapes, key=str))
         pt = tab.predicate_table(P, boi)
         MS = "Vec::is_empty(Iterator::collect(Iterator::filter_map([T]::iter(read_outputs), closure({closure#1}))))"
-        NXE = "variant(Iterator::next(IntoIterator::into_iter([T]::iter(self.expected_indices))))"
+        NXE = "variant(Iterator::next([T]::iter(self.expected_indices)))"
         chk.require(pt == {(frozenset([(MS, False), (NXE, ("None",))]), "Err"), (frozenset([(MS, True), (NXE, ("None",))]), "Ok")}, "TAB", "TAB:build_output_indices:exact-outcome",
                     "after the full scan: Err(MissingOutputs) iff some read output was not found among the driver's outputs", "build_output_indices decides %s" % sorted(pt, key=str))
         # found_outputs gets the signal index exactly when the entry is Output(_)
@@ -100,7 +100,7 @@ def run(chk, ctx):
                 kinds = [canon(a[1]) for bb, nm, a in pi.calls() if nm == "std::vec::Vec::push" and bb != pushf[0]]
                 kind = re.sub(r"\{.*", "", kinds[0]).split("::")[-1] if kinds else None
                 rows.add((kind, tuple(pushed)))
-            SI = "EntryIndex::signal_index(some!(Iterator::next(IntoIterator::into_iter([T]::iter(self.expected_indices)))))"
+            SI = "EntryIndex::signal_index(some!(Iterator::next([T]::iter(self.expected_indices))))"
             want = {("Virtual", ()), ("None", ()), ("Output", (SI,))}
             got = rows
             chk.require(got == want, "GUARD", "GUARD:build_output_indices:found-iff-Output", "found_outputs.push(signal_index) exactly when the entry is Output(_)", "per-iteration (entry kind, found_outputs pushes): %s" % sorted(rows, key=str))
